@@ -20,10 +20,10 @@ pub fn def() -> PropDef {
         quick_cases: 400_000,
         thorough_cases: 16_000_000,
         rule: "case = one sqrt input: Fq (squares of arbitrary elements, square*2 non-residues, 0, 1, -1, -2, boundary values) or Fq2 (squares, square * fixed non-square, zero imaginary part with the real part a residue / non-residue and below / above q/2, purely imaginary, boundary components), or a compressed decode of an x-coordinate (uniform x for G1, x of k*P2 for G2, both prefixes); oracle = Euler criterion (Fq), Euler-in-Fq2 and norm criterion (Fq2), soundness by squaring in the library and in the reference; non-trivial = x not in {0,1} and not a uniform square; distinct by input",
-        required: &[
+        required: crate::runner::req(&[
             "fq:square", "fq:nonresidue", "fq:const", "fq2:square", "fq2:nonsquare", "fq2:real-residue-low", "fq2:real-residue-high", "fq2:real-nonresidue-low",
             "fq2:real-nonresidue-high", "fq2:imag-only", "g1-compressed:residue", "g1-compressed:nonresidue", "g2-compressed",
-        ],
+        ]),
         enumerate: None,
         enumerate_note: "",
         also_dbg: false,
